@@ -10,7 +10,7 @@ import (
 // refGlob: reference matcher for patterns over components with '*' (any run of non-separator
 // bytes inside one component) and '**' (any number of components), written from the dockerignore
 // description; used with concrete names only.
-func refGlobComps(pat, path []string) bool {
+func vh_refGlobComps(pat, path []string) bool {
 	if len(pat) == 0 {
 		return len(path) == 0
 	}
@@ -19,7 +19,7 @@ func refGlobComps(pat, path []string) bool {
 			return true // trailing ** matches everything below (and the prefix itself)
 		}
 		for k := 0; k <= len(path); k++ {
-			if refGlobComps(pat[1:], path[k:]) {
+			if vh_refGlobComps(pat[1:], path[k:]) {
 				return true
 			}
 		}
@@ -28,41 +28,41 @@ func refGlobComps(pat, path []string) bool {
 	if len(path) == 0 {
 		return false
 	}
-	return refGlobOne(pat[0], path[0]) && refGlobComps(pat[1:], path[1:])
+	return vh_refGlobOne(pat[0], path[0]) && vh_refGlobComps(pat[1:], path[1:])
 }
 
-func refGlobOne(p, s string) bool {
+func vh_refGlobOne(p, s string) bool {
 	if p == "" {
 		return s == ""
 	}
 	if p[0] == '*' {
 		for k := 0; k <= len(s); k++ {
-			if refGlobOne(p[1:], s[k:]) {
+			if vh_refGlobOne(p[1:], s[k:]) {
 				return true
 			}
 		}
 		return false
 	}
-	return len(s) > 0 && p[0] == s[0] && refGlobOne(p[1:], s[1:])
+	return len(s) > 0 && p[0] == s[0] && vh_refGlobOne(p[1:], s[1:])
 }
 
-func refGlobMatch(p refPattern, path string) bool {
-	pc, sc := splitComps(p.text), splitComps(path)
+func vh_refGlobMatch(p vh_refPattern, path string) bool {
+	pc, sc := vh_splitComps(p.text), vh_splitComps(path)
 	if len(pc) > 0 && pc[len(pc)-1] == "**" && len(pc) > 1 {
 		// "x/**" matches what is below x, not x itself
 		if len(sc) < len(pc) {
 			return false
 		}
 	}
-	return refGlobComps(pc, sc)
+	return vh_refGlobComps(pc, sc)
 }
 
-func refGlobNaive(pats []refPattern, path string) bool {
+func vh_refGlobNaive(pats []vh_refPattern, path string) bool {
 	matched := false
 	for _, p := range pats {
-		mm := refGlobMatch(p, path)
-		for q := specParent(path); !mm && q != ""; q = specParent(q) {
-			mm = refGlobMatch(p, q)
+		mm := vh_refGlobMatch(p, path)
+		for q := vh_specParent(path); !mm && q != ""; q = vh_specParent(q) {
+			mm = vh_refGlobMatch(p, q)
 		}
 		if mm {
 			matched = !p.excl
@@ -71,7 +71,7 @@ func refGlobNaive(pats []refPattern, path string) bool {
 	return matched
 }
 
-var globTemplates = []string{"a/*/**", "a/*", "a/*/b", "*/b", "a/**/b", "*", "a*", "!a/*/b", "!*/b", "a", "a/b", "!a/b"}
+var vh_globTemplates = []string{"a/*/**", "a/*", "a/*/b", "*/b", "a/**/b", "*", "a*", "!a/*/b", "!*/b", "a", "a/b", "!a/b"}
 
 // VH_C10_glob: wildcard patterns ('*' inside a component, '**' across components) on trees with
 // solver-chosen concrete names: the filtered walk reports exactly what the naive reference
@@ -81,7 +81,7 @@ func VH_C10_glob() {
 	x, y := names[v.Choose("X", 3)], names[v.Choose("Y", 3)]
 	p, q, r := names[v.Choose("P", 3)], names[v.Choose("Q", 3)], names[v.Choose("R", 3)]
 	v.Assume(x < y && p < q)
-	t := &treeFS{ents: []*treeEnt{
+	t := &vh_treeFS{ents: []*vh_treeEnt{
 		{path: x, isDir: true},
 		{path: x + "/" + p, data: []byte("p")},
 		{path: x + "/" + q, isDir: true},
@@ -92,21 +92,21 @@ func VH_C10_glob() {
 		n := v.Choose(tag+"-n", max+1)
 		out := make([]string, n)
 		for i := range out {
-			out[i] = globTemplates[v.Choose(tag, len(globTemplates))]
+			out[i] = vh_globTemplates[v.Choose(tag, len(vh_globTemplates))]
 		}
 		return out
 	}
 	incS, excS := choose("inc", v.Param("NI", 1)), choose("exc", v.Param("NE", 1))
-	var inc, exc []refPattern
+	var inc, exc []vh_refPattern
 	for _, s := range incS {
-		inc = append(inc, parseRef(s))
+		inc = append(inc, vh_parseRef(s))
 	}
 	for _, s := range excS {
-		exc = append(exc, parseRef(s))
+		exc = append(exc, vh_parseRef(s))
 	}
 	// stay outside the incremental-matcher class (C10's main harness covers it): no negated pattern
 	// together with a positive one in the same list
-	for _, lst := range [][]refPattern{inc, exc} {
+	for _, lst := range [][]vh_refPattern{inc, exc} {
 		neg, pos := false, false
 		for _, p := range lst {
 			if p.excl {
@@ -136,14 +136,14 @@ func VH_C10_glob() {
 	v.Assert(err == nil, "filtered walk succeeds")
 	keep := make([]bool, len(t.ents))
 	for i, e := range t.ents {
-		included := len(inc) == 0 || refGlobNaive(inc, e.path)
-		excluded := len(exc) > 0 && refGlobNaive(exc, e.path)
+		included := len(inc) == 0 || vh_refGlobNaive(inc, e.path)
+		excluded := len(exc) > 0 && vh_refGlobNaive(exc, e.path)
 		keep[i] = included && !excluded
 	}
 	for i, e := range t.ents {
 		want := keep[i]
 		for j, o := range t.ents {
-			if keep[j] && isUnder(o.path, e.path) {
+			if keep[j] && vh_isUnder(o.path, e.path) {
 				want = true
 			}
 		}
